@@ -24,7 +24,7 @@ LEVEL_NOTE = ("Trusted: the canonicalisation (DefId numbers, %tmp names, generat
               "numeric title suffixes renumbered by first appearance); a forked child right after module "
               "import is a session with empty history.")
 TECHNIQUE = "history checker with fault injection (sys.monitoring failpoints in the compiler) against fresh-process baselines"
-RULE = ("pool of 27 definitions (incl. three that are fine themselves but depend on failing ones); check "
+RULE = ("pool of 28 definitions (incl. three that are fine themselves but depend on failing ones); check "
         "outcomes are compared with fresh-process baselines as well, half of the checks are repeated "
         "immediately; histories of 10-40 ops over {check, compile, emulate} x definition, 20% of "
         "compile ops carry a failpoint at a random line event inside compiler/*; distinct = distinct "
@@ -125,6 +125,11 @@ def n_rec_twice(k: int) -> int:
     return up(k) + n_rec0(3)
 
 @guppy
+def t_many(a: int, b: int, c: bool, e: bool) -> int:
+    x = (a if c else b) + (b if e else a) + (a if e else 3) + (7 if c and e else b)
+    return x
+
+@guppy
 def n_plain(k: int) -> int:
     def double(m: int) -> int:
         return m * 2
@@ -211,7 +216,7 @@ def dep_bad_comptime(a: int) -> int:
 DEFS = ["V", "f_add", "f_loop", "f_arr", "f_calls", "g_id", "g_len", "g_use", "n_rec", "n_plain", "c_sum",
         "c_bad", "uses_comptime", "uses_ov", "q_bell", "q_mod", "main_ok", "bad_check", "bad_undefined",
         "bad_linear", "bad_generic_entry", "ov_a", "dep_bad", "dep_bad2", "dep_bad_comptime",
-        "n_rec0", "n_rec_twice"]
+        "n_rec0", "n_rec_twice", "t_many"]
 ENTRY_DEFS = {"main_ok"}
 COMPILER_SUFFIX = "guppylang_internals/compiler/"
 
@@ -377,6 +382,14 @@ def run_case(ctx, rng, idx, params, tier):
     injected_before = False
     hook0 = sys.excepthook
     for step in range(rng.randint(10, 40)):
+        if rng.random() < 0.08:
+            # advance the session-wide temporary-variable counter to just below a power of ten, as
+            # checking a suitable number of unrelated definitions would: names like %tmp9 / %tmp10
+            # must not change how a definition is lowered
+            align_tmp_counter(rng.choice([10, 100, 1000, 10000]) - rng.randint(1, 3))
+            hist.append(("advance-tmp-counter",))
+            counters["tmp_counter_alignments"] = counters.get("tmp_counter_alignments", 0) + 1
+            continue
         name = rng.choice(DEFS)
         d = getattr(LD.module, name)
         op = rng.choice(["check", "compile", "compile", "compile", "emulate"])
@@ -470,6 +483,21 @@ def run_case(ctx, rng, idx, params, tier):
     if idx < 2:
         rec["sample"] = {"history": hist[:12]}
     return rec
+
+
+def align_tmp_counter(target: int) -> None:
+    """Consume /repo's global temporary-name generator until the next name carries a number n with
+    n % (10 ** len(str(target))) == target."""
+    import re as _re
+
+    from guppylang_internals.cfg import builder
+
+    mod = 10 ** len(str(target))
+    for _ in range(2 * mod):
+        name = next(builder.tmp_vars)
+        n = int(_re.search(r"(\d+)$", name).group(1))
+        if (n + 1) % mod == target:
+            return
 
 
 def replay(ctx, w):
